@@ -50,8 +50,10 @@ CLAIMED = {
              "through the real create_db (:memory: and file), all_features, str(), close + reopen and re-import, compared "
              "inside Coq with the model and with the input lines themselves.",
         note="Trusted: Coq kernel + vm_compute; Model/File.v, Model/Parser.v, Model/Dialect.v hand-written, tied by the "
-             "correspondence; simplejson storage of attributes/extra/dialect modelled as the identity (checked by the reopen "
-             "observations). Domain (boolean, evaluated in Coq on every generated file, inhabited in all 36 styles with a "
+             "correspondence; simplejson storage of attributes/extra/dialect is absent from Model/File.v (it is modelled "
+             "separately, Model/Json.v, theorems under C17/C09; here it is checked by the reopen observations); ids, merge "
+             "strategies and the database itself are likewise absent: C01's theorems are about the per-line supplied-dialect "
+             "parse/print of a whole file under `fits`. Domain (boolean, evaluated in Coq on every generated file, inhabited in all 36 styles with a "
              "window shorter than the file: Examples/C01_inhabited.v): wf_feature per line, and `fits`: the voted dialect has "
              "the style's format/separators/quoting/trailing semicolon, its repeated-keys flag matches on lines that repeat a "
              "key, and each line's keys are in the order the dialect prints them (documented single-order limitation of "
@@ -116,8 +118,8 @@ CLAIMED = {
         note="Trusted: Coq kernel + vm_compute; Model/Dialect.v (hand model of _choose_dialect, the peek window and the "
              "routing in create_db) and Model/Parser.v are tied to the code by the correspondence. The number of inspected "
              "lines (checklines vs checklines+1) is not fixed by the property: cases whose outcome depends on it are "
-             "out of domain. JSON persistence of the dialect (meta table) is modelled as the identity and checked by "
-             "the correspondence (reopen). FeatureDB.update's routing by the stored dialect is exercised under C10.",
+             "out of domain. JSON persistence of the dialect (meta table) is C09_dialect_persists over Model/Json.v, tied by "
+             "comparing the stored text and the reopened dialect. FeatureDB.update's routing by the stored dialect is exercised under C10.",
         technique="Coq proof (vote = first maximal total by induction; line dialect from the parse theorem; composition for consistent files) + differential correspondence",
         design="4 (C09)"),
     "C02": dict(
@@ -268,8 +270,9 @@ CLAIMED = {
         note="Trusted: Coq kernel + vm_compute; translator for merge_criteria.py; Model/Merge.v (the loop, _finalize_merge, "
              "children_bp, merge_all) hand-written and tied by the correspondence. Known finding F19 (start-ordered but "
              "class-interleaved input is not merged across the interleaving; children_bp(merge=True) then exceeds the per-class "
-             "union) is recorded with a Coq refutation (Examples/C16_inhabited.v). The union-cardinality form of children_bp "
-             "and merge_all are not theorems (correspondence + direct spec check only).",
+             "union) is recorded with a Coq refutation (Examples/C16_inhabited.v). The maximal-runs and union-cardinality "
+             "theorems are for inputs of ONE (seqid, strand, featuretype) class; class mixtures, merge_all, 'merging again' and "
+             "unchanged inputs are not theorems (correspondence + direct spec check only).",
         technique="Coq proof over translator-generated criteria (partition, hull, fresh ids, maximal runs by induction over the pass) + exhaustive small-scope differential correspondence",
         design="4 (C16)"),
     "C15": dict(
@@ -313,18 +316,18 @@ CLAIMED = {
         technique="Coq proof (container laws, union theorem, equality via printed line) + differential correspondence; JSON relative to an oracle",
         design="4 (C17)"),
     "C18": dict(
-        text="Coq theorems (Properties/C18.v, 12 statements, closed under the global context): len = end-start+1 (also on the "
+        text="Coq theorems (Properties/C18.v, 11 statements, closed under the global context): len = end-start+1 (also on the "
              "expression regenerated from Feature.__len__); sequence() is exactly bases start..end of the record (index-wise), "
              "its length equals len(feature) on either strand, it is the plain slice unless use_strand and strand '-', where it is "
-             "the reverse complement (involutive on ACGTN); bed12 = the twelve stated fields (chromStart=start-1, chromEnd=end, "
+             "the reverse complement (involutive on pyfaidx's whole complement table, ACGTN and the IUPAC codes in both cases); bed12 = the twelve stated fields (chromStart=start-1, chromEnd=end, "
              "block sizes = lengths, block starts relative to chromStart with first 0 and last block ending at chromEnd, thick "
              "bounds from first/last thick feature) and Err ValueError when the blocks do not span the feature; to_bed12 "
              "likewise. bed12 by id = bed12 by Feature, thin mode, custom block types, colours and pyfaidx itself are decided by "
              "the correspondence (~2k cases per quick run incl. transcripts whose children are written in descending or "
              "shuffled file order).",
         note="Trusted: Coq kernel + vm_compute; Model/Bed.v hand-written, tied by the correspondence; pyfaidx is modelled as "
-             "record[start-1:stop] plus an ACGTN complement table (oracle instance), IUPAC codes and out-of-range slices are out "
-             "of domain; children with equal starts (unordered in SQL) are not generated.",
+             "record[start-1:stop] plus pyfaidx's complement table incl. IUPAC codes (oracle instance); out-of-range slices are "
+             "out of domain; block features arrive in the order children(order_by='start') yields them (an input of the model); children with equal starts (unordered in SQL) are not generated.",
         technique="Coq proof (slice/length arithmetic, BED12 field theorems) + differential correspondence incl. pyfaidx",
         design="4 (C18)"),
     "C14": dict(
